@@ -191,6 +191,21 @@ def check_raise_guards(prog, rep, pairs, pyx):
     normalised). A twin that rejects more (or less) behaves differently for exactly those inputs."""
     def raises(fn):
         out = {}
+        from .normal import inline_temps
+        try:
+            fn = inline_temps(fn, aliases_only=True)    # `rank = self.rank` is the same condition
+        except Exception:
+            pass
+        # control-state flags (locals only ever bound to True / False) re-encode the block
+        # structure (e.g. try/except/else written with a flag); they are not conditions on inputs
+        binds = {}
+        for a in ast.walk(fn):
+            if isinstance(a, ast.Assign):
+                for t in a.targets:
+                    if isinstance(t, ast.Name):
+                        binds.setdefault(t.id, []).append(a.value)
+        flags = {k for k, vs in binds.items() if all(
+            isinstance(v, ast.Constant) and isinstance(v.value, bool) for v in vs)}
         for r in ast.walk(fn):
             if not (isinstance(r, ast.Raise) and r.exc is not None):
                 continue
@@ -204,7 +219,8 @@ def check_raise_guards(prog, rep, pairs, pyx):
                         break
             if msg is None:
                 continue
-            out[(cls, msg)] = (frozenset((t, p) for t, p, _ in guards_of(fn, r)), r)
+            out[(cls, msg)] = (frozenset((t, p) for t, p, _ in guards_of(fn, r)
+                                         if t not in flags), r)
         return out
     n = 0
     for rel, q, f, repl in pairs:
